@@ -361,6 +361,24 @@ ALG_KW = {'kex_algs': ['curve25519-sha256'], 'encryption_algs': ['aes128-ctr'], 
           'compression_algs': ['none']}
 _KEYS = {}
 
+# the peer's identification string and the negotiated compression are chosen by the peer too: asyncssh has
+# work-arounds keyed on 'dropbear' (+ compression: maximum packet size - 1), 'Cisco' (IGNORE without payload),
+# 'cryptlib' (extra NUL in USERAUTH_BANNER), 'OpenSSH' / 'paramiko' (SFTP symlink argument order)
+PEER_VERSIONS = ['SSH-2.0-MiniSSH_1.0', 'SSH-2.0-dropbear_2022.83', 'SSH-2.0-OpenSSH_9.2', 'SSH-2.0-Cisco-1.25',
+                 'SSH-2.0-cryptlib', 'SSH-2.0-paramiko_3.4.0']
+COMPRESSIONS = ['none', 'zlib', 'zlib@openssh.com']
+
+
+def peer_settings(job):
+    job = job or {}
+    return (job.get('peer_version') or PEER_VERSIONS[0]).encode('latin-1'), job.get('comp') or 'none'
+
+
+def alg_kw(comp):
+    kw = dict(ALG_KW)
+    kw['compression_algs'] = [comp]
+    return kw
+
 
 def host_key_pair():
     """(asyncssh private key, PyCA private key) for the two roles"""
@@ -395,9 +413,11 @@ async def open_server_role(phase, seed, chunk, job=None):
     c = Ctl()
     c.role, c.phase, c.owner, c.chan, c.peer_chan, c.connect = 'server', phase, [], 0, 7, None
     raw = phase in ('banner', 'rawstream')
+    pv, comp = peer_settings(job)
     mini = RawPeer() if raw else M.MiniSSH('client', kex_algs=[b'curve25519-sha256'], enc_algs=[b'aes128-ctr'],
                                             mac_algs=[b'hmac-sha2-256'], hostkey_algs=[b'ssh-ed25519'],
-                                            rng=det_rng(seed), auto_kex=phase not in ('prekex', 'inkex'))
+                                            rng=det_rng(seed), auto_kex=phase not in ('prekex', 'inkex'),
+                                            version=pv, comp_algs=(comp.encode(),))
     link = make_link(S, M, mini, chunk)
     c.link, c.mini = link, mini
     owner = c.owner
@@ -466,7 +486,7 @@ async def open_server_role(phase, seed, chunk, job=None):
 
     akey, _ = host_key_pair()
     c.acc = await asyncssh.listen('mem', 22, tunnel=link, server_factory=Srv, encoding=None,
-                                  server_host_keys=[akey], **ALG_KW)
+                                  server_host_keys=[akey], **alg_kw(comp))
     link.attach(link.server_factory('10.0.0.1', 40000))
     c.conn = link.conn
     await settle(link)
@@ -525,10 +545,12 @@ async def open_client_role(phase, seed, chunk, job=None):
     c.role, c.phase, c.owner, c.chan, c.peer_chan = 'client', phase, [], 0, 7
     raw = phase in ('banner', 'rawstream')
     akey, ckey = host_key_pair()
+    pv, comp = peer_settings(job)
     mini = RawPeer() if raw else M.MiniSSH('server', host_key=ckey, kex_algs=[b'curve25519-sha256'],
                                             enc_algs=[b'aes128-ctr'], mac_algs=[b'hmac-sha2-256'],
                                             hostkey_algs=[b'ssh-ed25519'], rng=det_rng(seed),
-                                            auto_kex=phase not in ('prekex', 'inkex'))
+                                            auto_kex=phase not in ('prekex', 'inkex'),
+                                            version=pv, comp_algs=(comp.encode(),))
     link = make_link(S, M, mini, chunk)
     c.link, c.mini = link, mini
     owner = c.owner
@@ -562,7 +584,7 @@ async def open_client_role(phase, seed, chunk, job=None):
     c.connect = asyncio.ensure_future(asyncssh.connect(
         'mem', 22, tunnel=link, known_hosts=trusted, username='u', password='pw', client_keys=None, config=None,
         client_factory=Cli, server_host_keys_handler=hk_handler, agent_path=None,
-        server_host_key_algs=['ssh-ed25519'], **ALG_KW))
+        server_host_key_algs=['ssh-ed25519'], **alg_kw(comp)))
     # connect() reads its defaults in an executor: wait for the connection object with real sleeps
     deadline = time.monotonic() + 15
     while link.conn is None and not c.connect.done():
